@@ -484,6 +484,37 @@ static std::vector<OOp> oalphabet(std::size_t n)
                            w.m[i] = 0;
                            stats["assign-empty"]++;
                        } });
+        ops.push_back({ "read *optional(o" + si + ") (temporary copy)", [i](OWorld& w) {
+                           // the checked read also holds for an rvalue optional
+                           const Opt& src = *w.slot[i];
+                           bool raised = false;
+                           int got = 0;
+                           try
+                           {
+                               got = (*Opt(src)).id;
+                           }
+                           catch (std::exception&)
+                           {
+                               raised = true;
+                           }
+                           if (w.m[i] == 0 && !raised)
+                               viol("reading-an-empty-temporary-optional-did-not-raise", "");
+                           if (w.m[i] != 0 && (raised || got != w.m[i]))
+                               viol("reading-a-full-temporary-optional-failed", "");
+                           bool raised2 = false;
+                           try
+                           {
+                               Opt tmp(src);
+                               got = (*std::move(tmp)).id;
+                           }
+                           catch (std::exception&)
+                           {
+                               raised2 = true;
+                           }
+                           if (raised2 != (w.m[i] == 0))
+                               viol("reading-a-moved-optional-raises-iff-empty-broken", "");
+                           stats["rvalue-reads"]++;
+                       } });
         ops.push_back({ "o" + si + " default-constructed", [i](OWorld& w) {
                            w.slot[i] = std::make_unique<Opt>();
                            w.m[i] = 0;
